@@ -365,15 +365,47 @@ func listOK(reqs []*fakelfs.Request, kind string) (n int, ok bool) {
 	return n, ok && n > 0
 }
 
+// limitFor picks N from {1, 2, number of locks - 1, number of locks, more} and names the relation of
+// N to the number of locks and to the server's page size (the shape counters).
+func (c *cse) limitFor() (n int, shape string) {
+	tot := len(c.table())
+	n = []int{1, 2, tot - 1, tot, tot + 1 + c.pick(3)}[c.pick(5)]
+	if n < 1 {
+		n = 1
+	}
+	switch {
+	case n < tot:
+		shape = "limit-lt-locks"
+	case n == tot:
+		shape = "limit-eq-locks"
+	default:
+		shape = "limit-gt-locks"
+	}
+	switch {
+	case c.page == 0:
+		shape += "/unpaged"
+	case c.page < n:
+		shape += "/page-lt-limit"
+	case c.page == n:
+		shape += "/page-eq-limit"
+	default:
+		shape += "/page-gt-limit"
+	}
+	return n, shape
+}
+
 func (c *cse) opLocks(u *user, o opt) {
 	args := []string{"locks"}
 	filtered := false
+	shape := "plain"
 	switch k := c.pick(10); {
-	case k < 5:
-	case k < 7:
+	case k < 4:
+	case k < 6:
 		args = append(args, "--path", c.files[c.pick(len(c.files))])
 		filtered = true
-	case k < 8:
+		shape = "path"
+	case k < 7:
+		shape = "id"
 		id := "lock-1"
 		if t := c.table(); len(t) > 0 {
 			id = t[c.pick(len(t))].ID
@@ -381,12 +413,16 @@ func (c *cse) opLocks(u *user, o opt) {
 		args = append(args, "--id", id)
 		filtered = true
 	default:
-		args = append(args, "--limit", fmt.Sprint(1+c.pick(3)))
+		n, sh := c.limitFor()
+		args = append(args, "--limit", fmt.Sprint(n))
 		filtered = true
+		shape = sh
 	}
 	if c.coin(50) {
 		args = append(args, "--json")
+		shape += "+json"
 	}
+	c.count("shape_locks_"+shape, 1)
 	c.maybeFault(o, "lock-list", 8)
 	_, reqs := c.exec(u, "locks", "", "git-lfs", args...)
 	c.disarm()
@@ -404,34 +440,94 @@ func (c *cse) opLocksVerify(u *user, o opt) {
 	if o.mode == "json" {
 		jsonOut = true
 	}
+	// option shapes: none | --limit N | --path P / --id ID (documented as not combinable: the command
+	// must refuse without touching server or cache)
+	shape, limit := "plain", 0
+	if !o.t1 && o.mode != "json" {
+		switch k := c.pick(100); {
+		case k < 35 || o.mode == "limit":
+			limit, shape = c.limitFor()
+			if o.mode == "limit" { // scripted opening: a limit the listing certainly reaches
+				if tot := len(c.table()); tot > 1 {
+					limit, shape = 1+c.pick(tot-1), "limit-lt-locks/scripted"
+				}
+			}
+			args = append(args, "--limit", fmt.Sprint(limit))
+		case k < 41:
+			args, shape = append(args, "--path", c.files[c.pick(len(c.files))]), "path"
+		case k < 45:
+			id := "lock-1"
+			if t := c.table(); len(t) > 0 {
+				id = t[c.pick(len(t))].ID
+			}
+			args, shape = append(args, "--id", id), "id"
+		}
+	}
 	if jsonOut {
 		args = append(args, "--json")
 	}
 	kind := "locks-verify"
-	if jsonOut {
+	switch {
+	case limit > 0:
+		kind = "locks-verify-limit"
+	case shape != "plain":
+		kind = "locks-verify-filter"
+	case jsonOut:
 		kind = "locks-verify-json"
 	}
+	c.count("shape_locks-verify_"+shape+map[bool]string{true: "+json", false: ""}[jsonOut], 1)
+	total := len(c.table())
 	c.armT1(o.t1)
 	_, reqs := c.exec(u, kind, "", "git-lfs", args...)
 	c.disarm()
-	c.afterVerifyListing(u, reqs)
+	switch {
+	case limit > 0:
+		// A listing cut off by --limit is not "the whole listing": the cache of own locks stays what the
+		// server granted and has not released. Only when the limit was NOT reached did the client see the
+		// whole listing; then both the unchanged and the replaced set are admissible (the pinned code
+		// replaces; it never writes the --cached file for a limited listing).
+		if n, ok, _ := verifyOutcome(reqs); n > 0 && ok && limit > total {
+			t := c.table()
+			u.candExp, u.candPol = oursOf(t, u.name), theirsOf(t, u.name)
+			c.count("model_limited_verify_saw_whole_listing", 1)
+		} else if n > 0 && ok {
+			c.count("model_limited_verify_cut_off", 1)
+			if len(oursOf(c.table(), u.name)) > 0 {
+				c.count("model_limited_verify_cut_off_while_holding_locks", 1)
+			}
+		}
+	case shape != "plain":
+		if len(reqs) > 0 {
+			c.violate("refused-listing-called-server", kind, u.name, fmt.Sprintf("`git lfs %s` is documented as an invalid combination, yet it sent %v", strings.Join(args, " "), reqStrings(reqs)))
+		}
+	default:
+		c.afterVerifyListing(u, reqs)
+	}
 	c.observe(u, kind, nil)
 }
 
 func (c *cse) opLocksLocal(u *user, o opt) {
 	args := []string{"locks", "--local"}
-	switch c.pick(4) {
+	shape := "plain"
+	switch c.pick(6) {
 	case 0:
-		args = append(args, "--json")
+		args, shape = append(args, "--json"), "plain+json"
 	case 1:
-		args = append(args, "--path", c.files[c.pick(len(c.files))])
+		args, shape = append(args, "--path", c.files[c.pick(len(c.files))]), "path"
 	case 2:
 		id := "lock-1"
 		for i := range u.exp {
 			id = i
 		}
-		args = append(args, "--id", id, "--json")
+		args, shape = append(args, "--id", id, "--json"), "id+json"
+	case 3:
+		n, sh := c.limitFor()
+		args, shape = append(args, "--limit", fmt.Sprint(n)), sh
+	case 4:
+		n, sh := c.limitFor()
+		args, shape = append(args, "--limit", fmt.Sprint(n), "--json"), sh+"+json"
 	}
+	c.count("shape_locks-local_"+shape, 1)
 	_, reqs := c.exec(u, "locks-local", "", "git-lfs", args...)
 	if len(reqs) > 0 {
 		// "--local: Lists only our own locks which are cached locally. Skips a remote call."
@@ -469,6 +565,33 @@ func jl(ls []jsonLock) []lockRec {
 // when that call is unambiguous: the user's most recent remote listing was a successful,
 // unfiltered one of the same kind, made on the branch that is checked out now.
 func (c *cse) opLocksCached(u *user, o opt) {
+	if c.coin(25) {
+		// --cached with --limit / --path / --id (or with --local) is documented as refused
+		args := []string{"locks", "--cached"}
+		shape := ""
+		switch c.pick(4) {
+		case 0:
+			n, _ := c.limitFor()
+			args, shape = append(args, "--limit", fmt.Sprint(n)), "limit"
+		case 1:
+			args, shape = append(args, "--path", c.files[c.pick(len(c.files))]), "path"
+		case 2:
+			args, shape = append(args, "--id", "lock-1"), "id"
+		default:
+			n, _ := c.limitFor()
+			args, shape = append([]string{"locks", "--verify", "--cached"}, "--limit", fmt.Sprint(n)), "verify+limit"
+		}
+		if c.coin(50) {
+			args = append(args, "--json")
+		}
+		c.count("shape_locks-cached_refused-"+shape, 1)
+		_, reqs := c.exec(u, "locks-cached-refused", "", "git-lfs", args...)
+		if len(reqs) > 0 {
+			c.violate("cached-listing-called-server", "locks-cached-refused", u.name, fmt.Sprintf("`git lfs %s` sent %v", strings.Join(args, " "), reqStrings(reqs)))
+		}
+		c.observe(u, "locks-cached-refused", nil)
+		return
+	}
 	verify := c.coin(40)
 	args := []string{"locks", "--cached", "--json"}
 	kind := "locks-cached"
@@ -871,7 +994,7 @@ func (c *cse) prefix() []step {
 	p := lockables[c.pick(len(lockables))]
 	a, b := c.pick(2), 0
 	b = 1 - a
-	kind := []int{0, 0, 0, 1, 1, 2, 2, 3, 3, 5, 5, 6, 6}[c.pick(13)]
+	kind := []int{0, 0, 0, 1, 1, 2, 2, 3, 3, 5, 5, 6, 6, 7, 7}[c.pick(15)]
 	big := false
 	switch {
 	case c.flavor == "odd-path":
@@ -913,6 +1036,8 @@ func (c *cse) prefix() []step {
 			return []step{{a, "lock", opt{path: q}}, {b, "checkout", opt{mode: "branch"}}, {b, "unlock", opt{path: q, mode: []string{"force-path", "force-id"}[c.pick(2)]}}, {b, "checkout", opt{mode: "branch"}}, {a, "checkout", opt{mode: "branch"}}, {a, "checkout", opt{mode: "branch"}}}
 		}
 		return []step{{a, "lock", opt{path: q}}, {a, "checkout", opt{mode: "branch"}}, {a, "unlock", opt{path: q, mode: um}}, {a, "checkout", opt{mode: "branch"}}, {a, "locklocal", opt{}}}
+	case 7: // a verifiable listing cut off by --limit while the user holds several locks, then a hook run on a locked file
+		return []step{{a, "lock", opt{path: p}}, {a, "lock", opt{}}, {b, "lock", opt{}}, {a, "lock", opt{}}, {a, "locksverify", opt{mode: "limit"}}, {a, "commit", opt{path: p}}}
 	case 6: // file removed from the work tree without committing: guard, then --force, then restore
 		return []step{{a, "lock", opt{path: p}}, {a, "remove", opt{path: p}}, {a, "unlock", opt{path: p, mode: []string{"path", "id"}[c.pick(2)]}}, {a, "unlock", opt{path: p, mode: []string{"force-path", "force-id"}[c.pick(2)]}}, {a, "checkout", opt{mode: "all"}}}
 	case 4: // oddly named path: guard, then hook runs of the owner and of the other user on that path
